@@ -123,6 +123,12 @@ type Mode struct {
 	Backend string `json:"backend,omitempty"` // mem fs fsbin pg (persist kinds)
 }
 
+// FirstCall is one call of the engine's first function.
+type FirstCall struct {
+	Lang  string // language on the context ("" = none)
+	Input string
+}
+
 // Session serves one session id in a given mode.
 type Session struct {
 	Shared  *Shared
@@ -135,6 +141,8 @@ type Session struct {
 	en *engine.DefaultEngine
 	St *state.State
 	Ca *cache.Cache
+	// FirstSeen: what the engine's first function was called with, in call order
+	FirstSeen []FirstCall
 	// FlushOnErr: also call Flush when Exec returned an error (C17 probes this)
 	FlushOnErr bool
 	// ReuseBuf: every input is handed to Exec in one and the same buffer (a caller that
@@ -157,6 +165,7 @@ func EngineConfig(c Config) engine.Config {
 		OutputSize: c.OutputSize, SessionId: c.SessionId, Root: c.Root, FlagCount: c.FlagCount,
 		CacheSize: c.CacheSize, Language: c.Language, MenuSeparator: c.MenuSeparator,
 		ResetOnEmptyInput: c.ResetOnEmptyInput,
+		StateDebug:        c.StateDebug, EngineDebug: c.EngineDebug,
 	}
 }
 
@@ -165,6 +174,7 @@ func (s *Session) newEngine() *engine.DefaultEngine {
 	e := engine.NewEngine(s.Cfg, s.Shared.Resource(s.Rec))
 	if f := s.Shared.App.Cfg.First; f != nil {
 		e = e.WithFirst(func(ctx context.Context, sym string, input []byte) (resource.Result, error) {
+			s.FirstSeen = append(s.FirstSeen, FirstCall{Lang: ctxLang(ctx), Input: string(input)})
 			return resource.Result{Content: f.Content, FlagSet: append([]uint32{}, f.FlagSet...)}, nil
 		})
 	}
